@@ -1,2 +1,77 @@
-(* placeholder until the proofs land *)
-From RaftModel Require Import Base Node.
+(* C06 — Vote and term integrity across crashes and store failures.
+   Statements only; proofs in Proofs/VoteProofs.v.  The objects are the functions the
+   correspondence driver runs (component 6): NodeCodec.step_full over Node.request_vote,
+   request_prevote, append_entries, install_snapshot, elect_self, timeout_now, recover, with crash
+   cuts between durable writes (cut_image) and a failure oracle for every store call. *)
+From Coq Require Import List NArith Lia.
+From stdpp Require Import gmap.
+From RaftModel Require Import Base Config Node NodeCodec.
+From RaftProofs Require Import VoteProofs.
+Open Scope N_scope.
+
+(* A server started by NewRaft from ANY durable image whose vote term does not exceed its term
+   is well-formed, and stays so: *)
+Theorem C06_boot_wellformed : forall P img r out,
+  wfd img -> boot P img = (r, out) -> wfr r /\ dproj (image r) = dproj img.
+Proof. exact boot_spec. Qed.
+Print Assumptions C06_boot_wellformed.
+
+(* For every sequence of events (RequestVote, RequestPreVote, AppendEntries, InstallSnapshot,
+   TimeoutNow, electSelf, restart), every failure pattern of the store calls, every crash cut
+   between two durable writes of any handler (followed by a restart): the Granted=true
+   responses of the whole history name at most one candidate per term. *)
+Theorem C06_one_vote_per_term : forall P r ins,
+  wfr r -> functional (grants (run_hist P r ins)).
+Proof. exact one_vote_per_term. Qed.
+Print Assumptions C06_one_vote_per_term.
+
+(* ... and for every single step of every such history:
+   - the durable term never decreases (also across crash + restart),
+   - a vote is CAST (the durable record becomes a pair (T,c) comparable with requests of the
+     current term) only while handling a RequestVote from c in term T that passed the log
+     up-to-date check against the voter's last entry and the voter-membership check against its
+     latest configuration (when it has one), or as the server's own vote in electSelf,
+   - a Granted=true response is sent only when the durable record is exactly (term, candidate),
+   - the term in a RequestVote response is at least the server's term. *)
+Theorem C06_every_step : forall P r ins, wfr r ->
+  forall pre e ob post, In (pre, e, ob, post) (run_hist P r ins) ->
+  d_term (image pre) <= d_term (image post) /\
+  (forall T c, live (image post) = Some (T, c) -> live (image pre) <> Some (T, c) -> cast_ok P (image pre) e T c) /\
+  (forall q t, ob = OVote q t true ->
+     d_term (image post) = vq_term q /\ d_vterm (image post) = vq_term q /\ d_vcand (image post) = Some (vq_addr q)) /\
+  (forall q t g s, ob = OVote q t g -> pre = Up s -> d_term s <= t).
+Proof. exact history_item_good. Qed.
+Print Assumptions C06_every_step.
+
+(* pre-vote never changes anything *)
+Theorem C06_prevote_no_effect : forall P s q cut fs,
+  fst (fst (step_full P (Up s) (NPreVote q) cut fs)) = Up s.
+Proof. intros. simpl. destruct (request_prevote s q). reflexivity. Qed.
+Print Assumptions C06_prevote_no_effect.
+
+(* Non-vacuity: voters {1,2,3}; server 1 holds (term 3, voted for 2 in 3), log (1,1) (2,1) (3,2).
+   B=3 asks at term 4 with an up-to-date log while the LastVoteTerm write fails; then A=2 asks at
+   term 4 with an empty log (refused: this is the F1 scenario, now closed); then B again, granted;
+   a crash after B's first durable write of a later request and a restart keep the record. *)
+Example C06_nontrivial :
+  let cfg := [mkSrv 0 1 1; mkSrv 0 2 2; mkSrv 0 3 3] in
+  let P := mkP 1 false false false 100 4 (fun _ => cfg) in
+  let img := image_of 3 3 3 [mkE 1 1 5 9000; mkE 2 1 0 11; mkE 3 2 0 12] 0 [] in
+  let r0 := fst (boot P img) in
+  let ins := [ (NVote (mkVReq 4 3 3 10 3 false), 0, [false; false; true]);
+               (NVote (mkVReq 4 2 2 0 0 false), 0, []);
+               (NVote (mkVReq 4 3 3 10 3 false), 0, []);
+               (NVote (mkVReq 5 3 3 10 3 false), 2, []);
+               (NVote (mkVReq 5 3 3 10 3 false), 0, []) ] in
+  wfr r0 /\
+  map (fun h => snd (fst h)) (run_hist P r0 ins)
+  = [OVote (mkVReq 4 3 3 10 3 false) 4 false; OVote (mkVReq 4 2 2 0 0 false) 4 false;
+     OVote (mkVReq 4 3 3 10 3 false) 4 true; OLost; OVote (mkVReq 5 3 3 10 3 false) 5 true] /\
+  grants (run_hist P r0 ins) = [(4, 3); (5, 3)].
+Proof.
+  cbv zeta. split.
+  - match goal with |- wfr (fst (boot ?P ?I)) =>
+      destruct (boot P I) as [r out] eqn:E; apply (boot_spec P I r out); [|exact E] end.
+    unfold wfd. simpl. lia.
+  - vm_compute. split; reflexivity.
+Qed.
